@@ -1715,6 +1715,8 @@ class Elab:
             fa = fm[1].args
             formals = [a.arg for a in list(getattr(fa, "posonlyargs", [])) + list(fa.args)][1:]
             o.args, o.kwargs = self.canon_args(formals, list(args), dict(kwargs))
+        if fm is not None and clsv.name in getattr(self, "opaque_classes", ()):
+            return o          # instance kept as an opaque object with its (canonical) constructor arguments: its body is not needed by the caller
         if fm is None:
             for b in clsv.bases:
                 if isinstance(b, ast.Call) and isinstance(b.func, ast.Name) and b.func.id == "namedtuple" and len(b.args) == 2:
@@ -2168,7 +2170,7 @@ def plist(prefix, n):
     return ListV([Sym("%s%d" % (prefix, i)) for i in range(n)])
 
 
-def elaborate(repo, modname, clsname, args=None, kwargs=None, overrides=None, hasattrs=None, calls=()):
+def elaborate(repo, modname, clsname, args=None, kwargs=None, overrides=None, hasattrs=None, calls=(), opaque=()):
     """Elaborate class `clsname` of module `modname` as the top instance (path '').
 
     args / kwargs: constructor arguments (V); parameters not given become Sym(<param name>).
@@ -2177,6 +2179,7 @@ def elaborate(repo, modname, clsname, args=None, kwargs=None, overrides=None, ha
     Returns (Design, Elab).
     """
     el = Elab(repo, overrides, hasattrs)
+    el.opaque_classes = set(opaque)
     env = el.modenv(modname)
     if env is None:
         raise KeyError("module %s not found" % modname)
